@@ -21,6 +21,13 @@ Oracle (DESIGN §C17; model = the generator's own edge list, never `Job._depende
 
 Histories (second and third phase): the same clauses for a Batch object that is built, run, edited and run again
 (dry runs, failed runs, clean runs, rejected runs in between) - see the comment above gen_history.
+
+Python jobs ("every pipeline built with the Batch DSL", dependencies "through a consumed resource"): a PythonJob consumes a
+resource by receiving it as an argument of PythonJob.call() - positionally, as a keyword argument, inside lists / tuples /
+dicts (nested) - and produces PythonResults (and the as_str / as_json / as_repr files derived from them).  Phase 'python'
+mixes bash and python jobs in pipelines that the LocalBackend really executes (`python3 -c <the repository's wrapper>`;
+the called functions append the same RUN / READ lines), the recording-backend histories mix them throughout; all oracles
+above apply unchanged, the model edge is again what the generator asked for (this job received that job's resource).
 """
 import contextlib
 import io
@@ -52,7 +59,17 @@ RULE = (
     'without further additions). Real LocalBackend (bash subprocesses; quick 60, thorough 6 x 300) and a recording '
     'backend with ServiceBackend\'s submission bookkeeping (a dry run leaves jobs unsubmitted; quick 300, thorough 6 x 1600). '
     'A history is distinct by (backend, per sitting: dry flag, new jobs, added edges with kinds, creation order; '
-    'always_run and failing vectors).'
+    'always_run and failing vectors). '
+    'PYTHON JOBS (phase python: quick 40, thorough 6 x 150 pipelines of <= 5 jobs on the real LocalBackend; and every recording-backend '
+    'history): each job is a PythonJob with a probability drawn per pipeline (executed 0 / .15 / .3, 85 % get one dependent forced to be a '
+    'python job that consumes its dependency\'s resource, half of those with a failing producer and a not-always-run consumer; recording '
+    'backend 0 / .25 / .5 / .8). A python job starts with a call whose PythonResult is what it offers to consumers; the resource-induced '
+    'edges into a python job are dealt over calls of 1..3 producers each; the arguments of a call are the consumed resources (bash '
+    'producer: file, resource-group member, whole group; python producer: the PythonResult or its as_str/as_json/as_repr file), in 30 % '
+    'the job\'s own earlier result (no dependency may come of it) and plain values, with random contiguous runs of them wrapped 0..3 times '
+    'into list / tuple / dict, the last 0..all top-level items passed by keyword; bash jobs consume python producers through the derived '
+    'files; python jobs have no resource groups (such edges become plain resource edges). A python case is distinct additionally by '
+    '(python vector, call argument trees).'
 )
 ASSUMPTIONS = [
     '/bin/bash and /bin/sh execute `echo >> file`, `read < file`, `exit N` faithfully; appends of < 100 bytes to the shared log by sequential subprocesses are ordered',
@@ -62,6 +79,16 @@ ASSUMPTIONS = [
     'Batch._unsubmitted_jobs / Job._submitted; with it only the Batch-side clauses (numbering, cycle rejection, hand-over order) are decided',
     'histories: what a later run owes to jobs whose only bad dependency failed in an earlier run, to jobs that sat through a LocalBackend dry run, '
     'to edges added after the dependent executed and to already executed jobs is read as unspecified (counted, never a verdict)',
+]
+ASSUMPTIONS += [
+    'python jobs: `python3` in the job subprocess is this interpreter (its directory is put first on PATH) and imports the same `dill` as the '
+    'monitor process (the functional pickle-backed shim of vf/shims/pkgs/dill unless a real dill is installed) and the 40-line module of called '
+    'functions written below a mkdtemp(); a self-test at start-up makes the run INCONCLUSIVE otherwise',
+    'python jobs: a PythonResult itself is only passed to consumers that cannot run unless the producer ran in the same run (the wrapper unpickles it '
+    'before the function is entered, so its absence would fail the consumer); always-run consumers and every bash consumer get the derived files, '
+    'whose absence the reading side tolerates like the bash jobs do',
+    'python jobs are not generated in the LocalBackend run / edit / re-run histories: a PythonJob that an earlier run() left unexecuted cannot be compiled by a '
+    'later run() at all (KeyError in PythonJob._compile: both backends clear Batch._python_function_defs after every run) - outside the clauses of C17, reported separately',
 ]
 TRUSTED_BASE = ['bash', 'the monitor\'s least-fixpoint skip model (20 lines)']
 SHARDS = {'quick': 1, 'thorough': 6}  # fork/exec-bound: 16 concurrent shards cost 3x the CPU of 6 for the same 4800 pipelines in this sandbox
@@ -120,6 +147,46 @@ def FLOORS(tier):
         'rerun_jobs_skipped': 17 * k,
         'rerun_previously_skipped_job_executed': 12 * k,
         'rerun_new_job_executed': 95 * k,
+        # python jobs (PythonJob.call arguments as the consumed resource; about half of the minimum over seeds 0..4).
+        # py_*: phase 'python', really executed by the LocalBackend (quick 40 pipelines, thorough 6 x 150 = 22 x quick)
+        'py_pipelines': 14 * k,
+        'py_calls': 14 * k,
+        'py_consumed_resources': 14 * k,
+        'py_jobs_executed': 9 * k,
+        'py_consumer_edges_numbering_checked': 7 * k,
+        'py_consumer_created_before_producer': 4 * k,
+        'py_consumer_skipped_only_through_call_arguments': 3 * k,
+        'py_reads_observed': 5 * k,
+        'py_arg_plain': 5 * k,
+        'py_arg_keyword': 6 * k,
+        'py_arg_in_tuple': 4 * k,
+        'py_arg_in_list': 3 * k,
+        'py_arg_in_dict': 2 * k,
+        'py_arg_nested': 6 * k,
+        'py_calls_with_own_result': 4 * k,
+        'py_bash_consumer_of_python_producer': 4 * k,
+        'py_ref_python_result': 1 * k,
+        'py_ref_converted_result_file': 3 * k,
+        'py_cycle_through_call_argument_rejected': 1 * k,
+        # plan_py_*: the recording-backend histories (quick 300, thorough 6 x 1600), bash and python jobs mixed
+        'plan_py_histories': 125 * k,
+        'plan_py_calls': 375 * k,
+        'plan_py_consumed_resources': 430 * k,
+        'plan_py_consumer_edges_numbering_checked': 385 * k,
+        'plan_py_call_added_to_numbered_job': 24 * k,
+        'plan_py_cycle_through_call_argument_rejected': 36 * k,
+        'plan_py_arg_plain': 150 * k,
+        'plan_py_arg_keyword': 200 * k,
+        'plan_py_arg_in_tuple': 125 * k,
+        'plan_py_arg_in_list': 70 * k,
+        'plan_py_arg_in_dict': 60 * k,
+        'plan_py_arg_nested': 130 * k,
+        'plan_py_calls_with_several_producers': 45 * k,
+        'plan_py_calls_with_own_result': 110 * k,
+        'plan_py_bash_consumer_of_python_producer': 180 * k,
+        'plan_py_ref_python_result': 100 * k,
+        'plan_py_ref_converted_result_file': 110 * k,
+        'plan_py_ref_group': 20 * k,
     }
 
 
@@ -256,6 +323,8 @@ def gen_case(rng, py=None):
             py_flags[e[0]] = True
             if edges[e] == 'explicit':
                 edges[e] = rng.choice(['resource', 'resource', 'both'])
+            if 'py_producer' in py and rng.random() < py['py_producer']:
+                py_flags[e[1]] = True  # python job -> python job (PythonResult or a file derived from it)
             if not cyclic and rng.random() < py.get('fail_producer', 0.0):
                 # ... and has to be skipped because of it (a skipped python job costs no interpreter start)
                 fails[e[1]] = True
@@ -1332,7 +1401,7 @@ def check_history(ctx, hist, obs):
     return tuple(outcome)
 
 
-PY_EXEC = {'p': [0.0, 0.15, 0.3], 'n_max': 5, 'force': 0.85, 'fail_producer': 0.5, 'raw': 'non_always_run_consumers'}
+PY_EXEC = {'p': [0.0, 0.15, 0.3], 'n_max': 5, 'force': 0.85, 'py_producer': 0.3, 'fail_producer': 0.5, 'raw': 'non_always_run_consumers'}
 PY_PLAN = {'p': [0.0, 0.25, 0.5, 0.8], 'n_max': 8, 'force': 0.3, 'raw': 'always'}
 
 
@@ -1486,6 +1555,27 @@ def _run(ctx, py_err):
 #                                                                          CAUGHT the four cycle/...-rerun keys of S2
 #  S1 seed    C17-agent2 (only the first failing job cancels its children) still CAUGHT, now also skip/rerun-child-of-failed-job-ran
 # Unchanged tree with the history phases: silent for VERIF_SEED 0..4 quick and 0..2 thorough.
+#
+# Python jobs (added after seeded change C17-agent6, invisible to pipelines of bash jobs only; scratch worktree, quick, seed 0,
+# phases python (40 executed pipelines) and history_plan (300 recording-backend histories)):
+#  S3 seed    job.py    PythonJob.call no longer descends into tuples     CAUGHT order/numbering-ignores-python-call-argument,
+#             order/python-consumer-ran-before-producer, skip/python-consumer-of-failed-or-skipped-producer-ran (+ rerun- variants,
+#             cycle/jobs-ran-in-cyclic-pipeline, cycle/closed-after-earlier-run-not-rejected, ... when the lost edge closes the cycle)
+#  P2 own     job.py    dict values are not scanned (drops keyword arguments as well)          CAUGHT same keys
+#  P3 own     job.py    `handle_args(kwargs)` dropped (keyword arguments not scanned)          CAUGHT same keys
+#  P4 own     job.py    a PythonResult argument adds no dependency (files still do)            CAUGHT same keys
+#  P5 own     job.py    only the first foreign resource of a call registers its source         CAUGHT order/[rerun-]numbering-ignores-python-call-argument,
+#             order/[rerun-]python-consumer-ran-before-producer, cycle/closed-after-earlier-run-jobs-ran (recording-backend phase)
+#  P6 own     job.py    the job's own earlier result is treated like a foreign resource (self-dependency)
+#                                                                          CAUGHT cycle/dag-rejected, cycle/rerun-dag-rejected
+#  P7 own     job.py    a ResourceGroup argument adds no dependency                            CAUGHT order/numbering-ignores-python-call-argument,
+#             skip/python-consumer-of-failed-or-skipped-producer-ran, order/python-consumer-ran-before-producer
+#  P8 own     job.py    containers are scanned one level deep only (no recursion)              CAUGHT same keys as S3
+#  S1, S2 (C17-agent2, C17-agent4) still CAUGHT.  Unchanged tree: silent for VERIF_SEED 0..4 quick and 0..2 thorough.
+# Observed while building this (NOT a C17 verdict, not generated): after a LocalBackend run() in which a PythonJob was skipped (its
+# producer failed), a second run() of the same Batch raises KeyError(<function id>) from PythonJob._compile - `_python_function_defs`
+# / `_python_function_files` are cleared at the end of every run (backend.py, both backends), `_function_calls` keeps the ids.
+#
 # Observed on the unchanged tree and deliberately NOT a verdict (the property is silent about it; counters
 # rerun_open_child_of_earlier_failure_ran, rerun_jobs_after_dry_run_not_run): a later run() of a LocalBackend batch executes
 # the jobs whose dependency failed in an EARLIER run (the failed job is `_submitted`, so nothing cancels them, and the
